@@ -237,6 +237,17 @@ def seq_elem(I, st, v, ip=None, label=False):
         ix = Poly.atom(("enumidx", t[1]))
         st.add_ge(t_len(t[1]) - ix - 1)
         return VTup([VNat(ix), seq_elem(I, st, VSeq(t[1]))])
+    if t[0] == "concat" and ip is not None:
+        off = Poly.const(0)
+        for part in t[1:]:
+            n = t_len(part)
+            if st.ge(ip, off + n):
+                off = off + n
+                continue
+            if st.ge(ip, off) and st.ge(off + n - 1, ip):
+                return seq_elem(I, st, VSeq(part), ip - off, label)
+            break
+        return VTop("element of concatenation at unknown position")
     if t[0] == "upd" and ip is not None:
         base_elem = seq_elem(I, st, VSeq(t[1]), ip)
         i0 = as_poly(t[2])
@@ -472,7 +483,8 @@ def h_iter_map(I, st, fr, e, c, a):
                               "bnd": {k: v for k, v in s2.bnd.items() if k not in st.bnd}}
         st.add_eq(t_len(term) - t_len(seq.t))
         return [(st, VSeq(term), None)]
-    if closure_has_effects(I, f):
+    import loops as _loops
+    if closure_has_effects(I, f) or _loops.heap_places(I, st, seq):
         return effectful_map(I, st, fr, e, seq, f)
     elem = seq_elem(I, st, seq, None)
     try:
@@ -495,7 +507,9 @@ def effectful_map(I, st, fr, e, seq, f):
     collected into a fresh result sequence."""
     import loops
     roots = loops.modified_roots(I, [f.node["body"]], f.frame)
-    result_key = (f.frame.id, ("mapresult", id(e)))
+    f.frame.map_ix = getattr(f.frame, "map_ix", 0) + 1
+    rk = ("mapresult", f.frame.map_ix)
+    result_key = (f.frame.id, rk)
     st.env[result_key] = VSeq(EMPTY)
 
     def run_body(s, elem):
@@ -509,9 +523,18 @@ def effectful_map(I, st, fr, e, seq, f):
                 s2.env[result_key] = VSeq(mk_concat([cur.t, item]))
             res.append((s2, UNIT, cc))
         return res
-    out = append_loop(I, st, f.frame, e, seq, None, None, set(roots) | {("mapresult", id(e))}, run_body)
+    allroots = set(roots) | {rk}
+    out = append_loop(I, st, f.frame, e, seq, None, None, allroots, run_body)
     if out is None:
-        raise NotImplementedError("effectful map closure not in append-only form")
+        # general case: invariant inference over the modified places (the result becomes an
+        # unknown sequence of the right length)
+        def body(s):
+            return run_body(s, seq_elem(I, s, seq, None))
+        head, exits, others = loops.run_loop(I, st, f.frame, e, allroots, body, "map", extra_values=[seq])
+        cur = head.env[result_key]
+        if isinstance(cur, VSeq):
+            head.add_eq(t_len(cur.t) - t_len(seq.t))
+        out = [(head, UNIT, None)] + exits + others
     res = []
     for (s2, v, cc) in out:
         res.append((s2, s2.env[result_key], cc))
@@ -964,17 +987,7 @@ def mentions(t, leaves):
 
 def append_loop(I, st, fr, e, seq, pat, body, roots, run_body):
     import loops
-    entry = {}
-    for r in sorted(roots, key=repr):
-        key = (fr.id, r)
-        if key not in st.env or _is_pattern_local(pat, r):
-            continue
-        v = st.env[key]
-        place = (key, ())
-        while isinstance(v, VMutRef):
-            place = v.place
-            v = I.read_place(st, place)
-        entry[r] = (place, v)
+    entry = loops.resolve_roots(I, st, fr, roots, skip=lambda r: _is_pattern_local(pat, r), extra_values=[seq])
     if not entry:
         return None
     head = st.copy()
@@ -985,7 +998,14 @@ def append_loop(I, st, fr, e, seq, pat, body, roots, run_body):
     for r, (place, v) in entry.items():
         nv = v
         for path, leafv in seq_leaves(v):
-            P = leaf(("prefix",) + lname + (str(names.get(r, r)),) + path)
+            rn = names.get(r, r) if not isinstance(r, tuple) else tuple(names.get(x, x) if not isinstance(x, tuple) else x for x in r[1:])
+            P = leaf(("prefix",) + lname + (str(rn),) + path)
+            if LIST_ELEM.get(leafv.t) or (isinstance(v, VRec) and v.ty in (inv.LH, inv.LOH) and path[-1:] == ("adjacency",)):
+                LIST_ELEM[P] = LIST_ELEM.get(leafv.t) or "hyperedge"
+                if LIST_ELEM[P] == "hyperedge":
+                    for fld in ("sources", "targets"):
+                        for b in head.bnd.get(("el", leafv.t, fld), ()):
+                            pass
             prefix[(r, path)] = (P, leafv.t)
             # the prefix is the entry value followed by what earlier iterations appended: its
             # length is at least the entry length; its element bounds are those of the entry value
@@ -1005,8 +1025,12 @@ def append_loop(I, st, fr, e, seq, pat, body, roots, run_body):
     try:
         elem = seq_elem(I, head, seq, None)
         outs = run_body(head, elem)
-    except (NotImplementedError, TypeError, KeyError):
+    except (NotImplementedError, TypeError, KeyError, AttributeError) as ex:
         return abort()
+    except Exception as ex:
+        if type(ex).__name__ == "Unsupported":
+            return abort()
+        raise
     if len(outs) != 1 or outs[0][2] is not None:
         return abort()
     s2 = outs[0][0]
@@ -1068,10 +1092,28 @@ def _set_path(v, path, newv):
     raise NotImplementedError("set_path")
 
 
+def subst_frozen(f, mapping):
+    k = f[0]
+    if k == "nat":
+        return ("nat", f[1].subst(mapping))
+    if k == "rec":
+        return ("rec", f[1], tuple((n, subst_frozen(x, mapping)) for n, x in f[2]))
+    if k == "tup":
+        return ("tup", tuple(subst_frozen(x, mapping) for x in f[1]))
+    if k == "enum":
+        return ("enum", f[1], f[2], tuple(subst_frozen(x, mapping) for x in f[3]))
+    return f
+
+
 def lift_added(I, st, S, x, per_iter):
     """What one iteration appended (x, over the placeholders of S), collected over all iterations."""
     if x[0] == "single":
-        return lift_map(I, st, S, thaw(x[1]))
+        # identifiers read from the length of a prefix: len(P) = len(entry) + k * (iteration index)
+        mapping = {}
+        for P, (t0, k) in per_iter.items():
+            mapping[("len", P)] = t_len(t0) + k * Poly.atom(("enumidx", S))
+        fz = subst_frozen(x[1], mapping)
+        return lift_map(I, st, S, thaw(fz))
     if x[0] == "fill" and st.eq(x[2], 1):
         p = as_poly(x[1])
         # fresh identifiers: value = len(prefix P) with one item appended to P per iteration
